@@ -100,13 +100,7 @@ class State:
         def F(Pt):
             return float(np.asarray(orig(gem, Pt, A, False)).reshape(-1)[0])
 
-        # round-off of the score itself: the MMD takes the square root of a difference of kernel means
-        ferr = _gem.mmd_tolerance(gem, P, np.asarray(A, dtype=float), rel=1e-14) if cname == "MMDGEMINI" else 0.0
-        if cname == "WassersteinGEMINI":
-            # the network-simplex solver resolves masses to ~1e-16 absolute: score error ~ 1e-14 * max cost
-            ferr = 1e-14 * float(np.max(np.abs(A)))
-        # every score is a difference of O(1) (resp. O(max|A|)) intermediates: absolute, not relative, round-off
-        ferr += 100 * numdiff.EPS * (max(1.0, float(np.max(np.abs(A)))) if A is not None else 1.0)
+        ferr = _gem.score_abs_err(gem, P, A)
         # round-off of the monitor's own projection of g onto the tangent space
         proj_floor = 1e4 * numdiff.EPS * float(np.max(np.abs(P * g)))
         rng = self.rng
@@ -192,7 +186,7 @@ def run_case(case, ctx, st):
     if case["kind"] == "direct":
         st.mode = "direct"
         for idx in range(case["i0"], case["i1"]):
-            info, gem, P, L, A, X = _gem.direct_case(case["seed"], ID, idx, nmax=14, scales=SCALES)
+            info, gem, P, L, A, X = _gem.direct_case(case["seed"], ID, idx, nmax=14, scales=SCALES, big=True)
             st.rng = gen.rng_for(case["seed"], ID, "mon", idx)
             ctx.case = {"kind": "direct", "seed": case["seed"], "i0": idx, "i1": idx + 1, "tier": case.get("tier"),
                         "info": info}
